@@ -1,6 +1,7 @@
 /-
   Witnesses for C02: programs the model (and the real compiler) types infallible that end in a
-  run-time error which is not the NaN error. One per finding class of the type inference.
+  run-time error which is not the NaN error. One per finding class of the type inference; and
+  `fixed_…` theorems: the counterexamples of the repaired classes, now typed fallible.
 -/
 import VrlProofs.Witness.C01
 
@@ -14,9 +15,23 @@ def InfallibleButFails (prog : Exprs) (ev : Value) : Prop :=
 instance (prog : Exprs) (ev : Value) : Decidable (InfallibleButFails prog ev) := by
   unfold InfallibleButFails; exact inferInstance
 
+/-- typed fallible (the compiler rejects the program unless the error is handled), and it does fail -/
+def FallibleAndFails (prog : Exprs) (ev : Value) : Prop :=
+  (typeSeq prog T0 {}).1.finish.fallible = true ∧ outcome prog ev = .err
+
+instance (prog : Exprs) (ev : Value) : Decidable (FallibleAndFails prog ev) := by
+  unfold FallibleAndFails; exact inferInstance
+
 set_option maxRecDepth 100000 in
-/-- `D_del_typing` (`10 / x.a` after `del(x.a)`: the constant divisor is gone) -/
-theorem witness_del_var : InfallibleButFails delVar delVarEv := by decide
+/-- fixed (`D_del_typing`, variables; 6af54e3): `10 / x.a` after `del(x.a)`: the constant divisor is
+    gone, and so is now the compiler's record of it: the division is typed fallible -/
+theorem fixed_del_var : FallibleAndFails delVar delVarEv := by decide
+
+set_option maxRecDepth 100000 in
+/-- `D_del_typing` (remaining; C19 `D_remove_shift`): after `x = [1, "s", 2]; del(x[0])` the variable is
+    `["s", 2]`, typed `{0: bytes, 2: integer}`; `x[2] + 1` is typed infallible and fails on `null + 1` -/
+theorem witness_del_shift : InfallibleButFails delShiftAdd delShiftAddEv ∧ nanFreeSeq delShiftAdd T0 = true := by
+  decide
 
 set_option maxRecDepth 100000 in
 /-- `D_short_circuit_defines_var` (`(.a || (x = 1)); x + 1` with `.a = true`); no float arithmetic -/
@@ -31,22 +46,25 @@ set_option maxRecDepth 100000 in
 theorem witness_err_partial_iasg : InfallibleButFails errPartialIasg errPartialIasgEv := by decide
 
 set_option maxRecDepth 100000 in
-/-- `D_div_typing`: the assignment in the divisor is not applied to the type state -/
-theorem witness_div_rhs : InfallibleButFails divRhs divRhsEv := by decide
+/-- fixed (`D_div_typing`; a408080): the assignment in the divisor was not applied to the type state;
+    now `x` is an integer afterwards and `x + "t"` is typed fallible -/
+theorem fixed_div_rhs : FallibleAndFails divRhs divRhsEv := by decide
 
 set_option maxRecDepth 100000 in
-/-- `D_div_typing`: `(1 / .n) / 2` is typed infallible; with `.n = 0` it fails with "divide by zero"
-    (not the NaN error) -/
-theorem witness_div_lhs :
-    InfallibleButFails divLhs divLhsEv ∧ Arith.tryDiv (.int 1) (.int 0) = .err .divideByZero := by decide
+/-- fixed (`D_div_typing`; a408080): `(1 / .n) / 2` was typed infallible; with `.n = 0` it fails with
+    "divide by zero" (not the NaN error). The fallibility of the dividend is now kept. -/
+theorem fixed_div_lhs :
+    FallibleAndFails divLhs divLhsEv ∧ Arith.tryDiv (.int 1) (.int 0) = .err .divideByZero := by decide
 
 set_option maxRecDepth 100000 in
-/-- `D_short_circuit_const_lhs`: `true && .a` with `.a = 5`; no arithmetic at all -/
-theorem witness_and_true : InfallibleButFails andTrue andTrueEv ∧ nanFreeSeq andTrue T0 = true := by decide
+/-- fixed (`D_short_circuit_const_lhs`; fcfb238): `true && .a` with `.a = 5` was typed infallible; the
+    rhs is now `fallible_unless(null | boolean)` -/
+theorem fixed_and_true : FallibleAndFails andTrue andTrueEv ∧ safeSeq andTrue T0 = true := by decide
 
 set_option maxRecDepth 100000 in
-/-- `D_short_circuit_const_lhs`: an always-`null` lhs drops its own fallibility -/
-theorem witness_and_null : InfallibleButFails andNull andNullEv := by decide
+/-- fixed (`D_short_circuit_const_lhs`; fcfb238): an always-`null` lhs dropped its own fallibility; it
+    is now kept -/
+theorem fixed_and_null : FallibleAndFails andNull andNullEv := by decide
 
 set_option maxRecDepth 100000 in
 /-- `D_ctor_poststate`: `Predicate::new` checks the predicate's kind in the state after the predicate
@@ -55,11 +73,12 @@ theorem witness_ctor_poststate : InfallibleButFails ctorPost ctorPostEv ∧ nanF
   decide
 
 set_option maxRecDepth 100000 in
-/-- **the full-strength statement of C02 is false of the model**: `true && .a` -/
+/-- **the full-strength statement of C02 is false of the model**: the predicate checked in the wrong
+    state (`D_ctor_poststate`) -/
 theorem not_full : ¬ C02.Full := by
   intro h
-  have hi := h (.op .and (.lit (.bool true)) (.qext false [.field [97]])) T0 (by decide)
-    (st andTrueEv) (conforms_st _ (by decide) (by decide)) (by decide) (by decide)
+  have hi := h (.blk ctorPost) T0 (by decide)
+    (st ctorPostEv) (conforms_st _ (by decide) (by decide)) (by decide) (by decide)
   revert hi
   decide
 
